@@ -304,10 +304,6 @@ def s14_free(decls):
             return True
         if e[0] == "bin" and is_int(e[2]) and not is_int(e[3]) and not simple(e[2]):
             return False
-        if e[0] == "cond" and all_const(e[2]) and not (
-                e[2][0] == "int" or (e[2][0] == "lit" and e[2][2][0] == "int")):
-            # known finding L1 (C17): `cond : v` with v a compound constant loses the constant
-            return False
         return all(ok(x) for x in e[1:])
 
     return all(ok(d[2]) for d in decls if d[0] != "in")
